@@ -195,7 +195,7 @@ def run_check(prop, tier, seed, workers=None, budget=None, keep=False):
         if n == 0:
             reasons.append("anchor %s never entered" % a)
     wd = sum(inconc.values())
-    if evaluations and wd > max(5, cfg.get("inconclusive_tolerance", 0.005) * evaluations):
+    if evaluations and wd > max(5, cfg.get("inconclusive_tolerance", 0.05) * evaluations):
         reasons.append("%d inconclusive cases (%s) out of %d" % (wd, inconc, evaluations))
     if len(nontrivial) < 2:
         reasons.append("fewer than 2 distinct non-trivial cases")
